@@ -344,7 +344,9 @@ theorem unindexDoc_spec {s : State} {T : Table} (hi : Inv s T) (hs : Small s.bas
     let b' := unindexDoc okapi s.base d
     b'.lex = s.base.lex ∧ WI b' ∧ b'.docwords = AMap.erase s.base.docwords d ∧
     (∀ w x, x ∈ posting b' w ↔ x ∈ posting s.base w ∧ x ≠ d) ∧
-    b'.indexedCount = b'.docwords.length := by
+    b'.indexedCount = b'.docwords.length ∧
+    b'.totalDocLen = (if okapi then s.base.totalDocLen - (((tokensOf T d).map List.length).getD 0 : Nat)
+      else s.base.totalDocLen) := by
   intro b'
   have hgw := getWords_of_inv hi hs d
   cases ht : tokensOf T d with
@@ -353,7 +355,7 @@ theorem unindexDoc_spec {s : State} {T : Table} (hi : Inv s T) (hs : Small s.bas
     have hb : b' = s.base := by simp [b', unindexDoc, hgw]
     have hdn : AMap.get s.base.docwords d = none := by rw [hi.docwords d, ht]; rfl
     rw [hb]
-    refine ⟨rfl, hi.wi, (AMap.erase_of_get_none hdn).symm, ?_, hi.icount⟩
+    refine ⟨rfl, hi.wi, (AMap.erase_of_get_none hdn).symm, ?_, hi.icount, by simp [ht]⟩
     intro w x
     constructor
     · intro hx
@@ -377,7 +379,7 @@ theorem unindexDoc_spec {s : State} {T : Table} (hi : Inv s T) (hs : Small s.bas
     have hwi1 : WI b1 := ⟨hi.wi.wf, hi.wi.nonempty, hi.wi.nodup, hi.wi.count⟩
     have hwi := wi_delAll hwi1 (distinct (idsOf s.base.lex toks)) d
     rw [hb]
-    refine ⟨f1, ⟨hwi.wf, hwi.nonempty, hwi.nodup, hwi.count⟩, by simp [f2, b1], ?_, ?_⟩
+    refine ⟨f1, ⟨hwi.wf, hwi.nonempty, hwi.nodup, hwi.count⟩, by simp [f2, b1], ?_, ?_, ?_⟩
     · intro w x
       show x ∈ posting (delAll b1 _ d) w ↔ _
       rw [mem_posting_delAll]
@@ -398,6 +400,9 @@ theorem unindexDoc_spec {s : State} {T : Table} (hi : Inv s T) (hs : Small s.bas
       have h2 := hi.icount
       show s.base.indexedCount - 1 = _
       rw [h2]; simp only [b1]; omega
+    · show (delAll b1 _ d).totalDocLen = _
+      rw [f4]
+      simp [b1, ht, idsOf]
 
 /-- the `_del_wordinfo` calls of `unindex_doc`/`reindex_doc` never raise `KeyError` -/
 theorem updateDefined_of_inv {s : State} {T : Table} (hi : Inv s T) (hs : Small s.base.lex) (d : Int) :
